@@ -27,6 +27,7 @@ import (
 	"verif/lww"
 	"verif/mc"
 	"verif/sched/drv"
+	fgate "verif/sched/gate"
 	"verif/sched/vrt"
 )
 
@@ -51,6 +52,56 @@ func zapFiles(store string) map[string]bool {
 		}
 	}
 	return rv
+}
+
+// heldReader: the files of a reader the driver holds, the reader's epoch, and whether that epoch was
+// ever recorded in root.bolt while the reader was held. A reader on a recorded epoch is protected by
+// reference counting (the epoch only becomes eligible for purging when the reader is closed). A
+// reader on an epoch that is never recorded (the root the persister introduces after a persist, or
+// a merge introduces, taken before the persister's next round) has no such protection: its files are
+// safe only while some recorded snapshot or the current root names them (known finding, DESIGN §9.2).
+const neverRecorded = "missing:file-held-by-reader-of-a-never-recorded-epoch"
+
+type heldReader struct {
+	files    []string
+	epoch    uint64
+	recorded bool
+	reported bool
+}
+
+func holdReader(r index.IndexReader) *heldReader {
+	h := &heldReader{files: readerFiles(r)}
+	if is, ok := r.(*scorch.IndexSnapshot); ok {
+		h.epoch = scorch.VerifSnapshotEpoch(is)
+	}
+	return h
+}
+
+// check reports a file of the held reader that is missing on disk.
+func (h *heldReader) check(c *drv.Ctx, label string, st *scorch.VerifFileState, disk map[string]bool) bool {
+	if h == nil {
+		return true
+	}
+	for _, e := range st.Epochs {
+		if e == h.epoch {
+			h.recorded = true
+		}
+	}
+	for _, f := range h.files {
+		if !disk[f] {
+			if h.recorded {
+				c.Fail("missing:file-held-by-open-reader", "at %s: %s is used by an index reader (epoch %d, recorded in root.bolt while held) that is still open but is missing on disk", label, f, h.epoch)
+				return false
+			}
+			// known finding: reported once per execution, the monitor goes on (it must not hide anything else)
+			if !h.reported {
+				h.reported = true
+				c.Fail(neverRecorded, "at %s: %s is used by an index reader that is still open but is missing on disk; the reader's epoch %d was never recorded in root.bolt (recorded now: %v)", label, f, h.epoch, st.Epochs)
+			}
+			return true
+		}
+	}
+	return true
 }
 
 func readerFiles(r index.IndexReader) []string {
@@ -102,11 +153,11 @@ func body(k cfg) func(c *drv.Ctx) {
 			}
 		})
 		sc := bx.Scorch(idx)
-		var held []string // files of the reader the driver currently holds
+		var held *heldReader // the reader the driver currently holds
 		monitorOn := true
 		checks := 0
 		monitor := func(label string) {
-			if !monitorOn || c.Failed() {
+			if !monitorOn || c.FailedExcept(neverRecorded) {
 				return
 			}
 			st, err := sc.VerifFileState()
@@ -128,11 +179,8 @@ func body(k cfg) func(c *drv.Ctx) {
 					return
 				}
 			}
-			for _, f := range held {
-				if !disk[f] {
-					c.Fail("missing:file-held-by-open-reader", "at %s: %s is used by an index reader that is still open but is missing on disk", label, f)
-					return
-				}
+			if !held.check(c, label, st, disk) {
+				return
 			}
 		}
 		vrt.Hook = func(label string) {
@@ -196,7 +244,7 @@ func body(k cfg) func(c *drv.Ctx) {
 				c.Fail("error:reader", "Reader: %v", err)
 				return
 			}
-			held = readerFiles(r)
+			held = holdReader(r)
 			want, _ := r.DocCount()
 			for n := 1; n < k.batches; n++ {
 				vrt.Recv(tok)
@@ -236,6 +284,14 @@ func body(k cfg) func(c *drv.Ctx) {
 			})
 		}
 		wg.Wait()
+		settleAndClose(c, idx, sc, store, base, k.keep, func() { monitorOn = false; c.Count("monitor_evaluations", checks) })
+	}
+}
+
+// settleAndClose: liveness at quiescence (idle rounds: directory = files named by the recorded
+// snapshots, epochs bounded, no growth), then Close and the descriptor scan.
+func settleAndClose(c *drv.Ctx, idx bleve.Index, sc *scorch.Scorch, store, base string, keep int, monitorOff func()) {
+	{
 		vrt.Free(func() {
 			type q struct{ files, epochs int }
 			var hist []q
@@ -256,8 +312,8 @@ func body(k cfg) func(c *drv.Ctx) {
 					if strings.Join(dl, ",") != strings.Join(st.BoltFiles, ",") {
 						c.Fail("quiescence:stray-or-missing-files", "after writing stopped and background work settled the directory holds zap files %v but the recorded snapshots name %v (epochs %v, ineligible %v, copy-scheduled %v)", dl, st.BoltFiles, st.Epochs, st.Ineligible, st.CopySched)
 					}
-					if len(st.Epochs) > k.keep+1 {
-						c.Fail("quiescence:too-many-epochs", "%d snapshot epochs recorded at quiescence with numSnapshotsToKeep=%d (bound keep+1)", len(st.Epochs), k.keep)
+					if len(st.Epochs) > keep+1 {
+						c.Fail("quiescence:too-many-epochs", "%d snapshot epochs recorded at quiescence with numSnapshotsToKeep=%d (bound keep+1)", len(st.Epochs), keep)
 					}
 					if len(st.CopySched) > 0 {
 						c.Fail("quiescence:copy-scheduled-left", "files still scheduled for copy at quiescence: %v", st.CopySched)
@@ -271,8 +327,7 @@ func body(k cfg) func(c *drv.Ctx) {
 					break
 				}
 			}
-			monitorOn = false
-			c.Count("monitor_evaluations", checks)
+			monitorOff()
 			if err := idx.Close(); err != nil {
 				c.Fail("error:close", "Close: %v", err)
 			}
@@ -283,6 +338,121 @@ func body(k cfg) func(c *drv.Ctx) {
 				}
 			}
 		})
+	}
+}
+
+// ---- gated workload families: word x gate are environment choices of the explorer. Every batch in
+// its own client thread, started when everything the previous one set in motion has settled; a reader
+// is taken after the first batch and held to the end; the file monitor runs at every effect boundary.
+func bodyGatedFamily(k cfg) func(c *drv.Ctx) {
+	menu := fgate.MenuPairs()
+	return func(c *drv.Ctx) {
+		word := k.family[vrt.Choose(len(k.family), "workload")]
+		spec := menu[vrt.Choose(len(menu), "gate")]
+		wl := lww.BuildWord(word)
+		base := c.Dir + "/idx"
+		store := filepath.Join(base, "store")
+		var idx bleve.Index
+		vrt.Free(func() {
+			plan := k.plan
+			if plan == nil {
+				plan = bx.AggressiveMergePlan
+			}
+			conf := map[string]interface{}{"numSnapshotsToKeep": k.keep, "scorchMergePlanOptions": bx.CopyConfig(plan), "eventCallbackName": fgate.Name}
+			if k.unsafe {
+				conf["unsafe_batch"] = true
+			}
+			var err error
+			idx, err = bleve.NewUsing(base, bleve.NewIndexMapping(), scorch.Name, scorch.Name, conf)
+			if err != nil {
+				panic(err)
+			}
+			vrt.WaitIdle()
+		})
+		sc := bx.Scorch(idx)
+		var held *heldReader
+		monitorOn := true
+		checks := 0
+		vrt.Hook = func(label string) {
+			if !monitorOn || c.FailedExcept(neverRecorded) || !strings.HasPrefix(label, "fs:") {
+				return
+			}
+			st, err := sc.VerifFileState()
+			if err != nil {
+				return
+			}
+			checks++
+			disk := zapFiles(store)
+			for _, f := range st.BoltFiles {
+				if !disk[f] {
+					c.Fail("missing:bolt-named-file", "at %s: %s is named by a snapshot committed in root.bolt (epochs %v) but is missing on disk", label, f, st.Epochs)
+					return
+				}
+			}
+			for _, f := range st.RootFiles {
+				if !disk[f] {
+					c.Fail("missing:current-root-file", "at %s: %s belongs to the current root (epoch %d) but is missing on disk", label, f, st.RootEpoch)
+					return
+				}
+			}
+			if !held.check(c, label, st, disk) {
+				return
+			}
+		}
+		defer func() { vrt.Hook = nil }()
+		g := fgate.Arm(spec)
+		defer g.Disarm()
+		var wg vrt.WaitGroup
+		var rd index.IndexReader
+		var want uint64
+		for j := 1; j <= len(wl); j++ {
+			j := j
+			wg.Add(1)
+			vrt.Go(func() {
+				defer wg.Done()
+				if err := lww.ExecBatch(idx, wl[j-1]); err != nil {
+					c.Fail("error:batch", "Batch %d: %v", j, err)
+				}
+			})
+			vrt.WaitIdle()
+			if j == 1 {
+				adv, _ := idx.Advanced()
+				if r, err := adv.Reader(); err == nil {
+					rd = r
+					held = holdReader(r)
+					want, _ = r.DocCount()
+				}
+			}
+			if g.Step() {
+				vrt.WaitIdle()
+			}
+		}
+		parked := g.Was()
+		g.Open()
+		wg.Wait()
+		vrt.WaitIdle()
+		if rd != nil {
+			got, err := rd.DocCount()
+			if err != nil || got != want {
+				c.Fail("reader-changed", "held reader DocCount %d -> %d (%v)", want, got, err)
+			}
+			if d, err := rd.Document("k0"); err != nil || d == nil {
+				c.Fail("reader-lost-document", "held reader lost document k0: %v", err)
+			} else {
+				d.VisitFields(func(f index.Field) {})
+			}
+			held = nil
+			rd.Close()
+		}
+		if parked > 0 {
+			c.Count("executions_in_which_a_gate_parked_a_background_thread", 1)
+		}
+		if parked > 1 {
+			c.Count("executions_in_which_persister_and_merger_were_both_parked", 1)
+		}
+		c.Observe(fmt.Sprintf("wl=%s gate=%s parked=%v", word, spec.Label, parked))
+		c.Count("family_words_x_gates_run", 1)
+		settleAndClose(c, idx, sc, store, base, k.keep, func() { monitorOn = false; c.Count("monitor_evaluations", checks) })
 	}
 }
 
@@ -332,7 +502,7 @@ func bodyPurgeGate(k cfg) func(c *drv.Ctx) {
 		monitorOn := true
 		checks := 0
 		monitor := func(label string) {
-			if !monitorOn || c.Failed() {
+			if !monitorOn || c.FailedExcept(neverRecorded) {
 				return
 			}
 			st, err := sc.VerifFileState()
@@ -718,7 +888,20 @@ func Scenarios() []drv.Scenario {
 		sc.Doc = "workload family: every word over the batch-shape alphabet {n u b d w x m} after a setup batch is the writer's workload (environment choice: all words); reader held from batch 1 to the end, a backup started after batch 2; file monitor at every effect boundary, quiescence and descriptor checks"
 		return sc
 	}
+	gfam := func(name string, k cfg, quick bool) drv.Scenario {
+		k.name, k.family = name, lww.GatedWords(mc.Tier())
+		sc := drv.Scenario{Name: name, Body: bodyGatedFamily(k), Thorough: d0, Class: "files", MaxSteps: 1500000,
+			Doc: "gated workload family: every word over the batch-shape alphabet (incl. a batch deleting every live document) x every member of the gate menu (none; merger parked before introducing a merge / before planning, persister parked after a round / before its purge; 1st or 2nd occurrence; reopened after 1 or 2 further batches); reader held from batch 1; file monitor at every effect boundary; quiescence and descriptor checks"}
+		if quick {
+			sc.Quick = d0
+		}
+		return sc
+	}
 	return []drv.Scenario{
+		gfam("gated-family-aggressive-merges-keep1", cfg{keep: 1}, true),
+		gfam("gated-family-unsafe-aggressive-merges-keep1", cfg{keep: 1, unsafe: true}, true),
+		gfam("gated-family-partial-merges-keep2", cfg{keep: 2, plan: bx.PartialMergePlan}, false),
+		gfam("gated-family-unsafe-default-plan-keep1", cfg{keep: 1, unsafe: true, plan: map[string]interface{}{}}, false),
 		fam("family-writer+reader+copy-aggressive-merges-keep1", cfg{keep: 1, copy: true}),
 		fam("family-writer+reader+copy-partial-merges-keep1", cfg{keep: 1, copy: true, plan: bx.PartialMergePlan}),
 		fam("family-writer+reader+copy-default-plan-keep2", cfg{keep: 2, copy: true, plan: map[string]interface{}{}}),
